@@ -29,7 +29,7 @@ ASSUMPTIONS = [
     'elements; zero for first/min/max) evaluated in exact arithmetic on the printed decimal token; the value read by LASRead '
     'must equal Python float(token) exactly',
     'The null value -999.25 in the source is compared on the underlying data (np.ma.getdata); the mask is not part of the property',
-    'Float formats are .Nf with N in 0..8 (the property speaks of printed decimals); e/g formats are not generated',
+    'Float formats are .Nf with N in 0..8 and, in 15% of the cases, general / exponent formats (.N, .Ng, .Ne) whose tolerance is half a unit of the last *significant* digit',
 ]
 MECHANISMS = [
     ('TotalDepth.LAS.core.WriteLAS', 'write_curve_section_to_las'),
@@ -78,6 +78,22 @@ def rand_shape(rng):
     if r < 0.95:
         return (1, 1)
     return (rng.randint(1, 2), rng.randint(1, 3), rng.randint(1, 3))
+
+
+def print_tol(fmt, v):
+    """Half a unit of the last digit a general ('.N', '.Ng') or exponent ('.Ne') float format prints for the exact value v."""
+    n = int(fmt[1:-1]) if fmt[-1] in 'ge' else int(fmt[1:])
+    sig = n + 1 if fmt.endswith('e') else max(n, 1)
+    if v == 0:
+        return Fraction(0)
+    a, e10 = abs(v), 0
+    while a >= 10:
+        a /= 10
+        e10 += 1
+    while a < 1:
+        a *= 10
+        e10 -= 1
+    return Fraction(10) ** (e10 - sig + 1) / 2
 
 
 def rand_values(rng, dtype, count, nframes, d):
@@ -157,6 +173,11 @@ def run_shard(ctx, p):
         fw = rng.randint(4, 24)
         d = rng.randint(0, 8)
         fmt = '.%df' % d
+        general = rng.random() < 0.15
+        if general:
+            # the option takes any Python float format: general / exponent forms count significant digits, not decimals
+            fmt = rng.choice(['.3', '.5', '.8', '.4g', '.7g', '.3e', '.6e'])
+            d = 3
         red = rng.choice(REDUCTIONS)
         used = set()
         specs = []
@@ -168,13 +189,18 @@ def run_shard(ctx, p):
                 units = 'M'
             long_name = G.rand_text(rng, allow_colon=rng.random() < 0.2)
             dtype = rng.choice(DTYPES)
-            shape = rand_shape(rng) if (c > 0 or rng.random() < 0.25) else (1,)
+            shape = rand_shape(rng) if (c > 0 or (rng.random() < 0.25 and not general)) else (1,)
             count = 1
             for s in shape:
                 count *= s
             if c == 0:
                 # strictly monotonic index; every element of frame i lies in [base_i, base_i + step/4]
-                if dtype.startswith('float'):
+                if dtype.startswith('float') and general:
+                    # index values that stay distinct at three significant digits
+                    sgn = rng.choice([1, -1])
+                    vals = [[float(sgn * (1 + f))] for f in range(nfr)]
+                    cls = 'index'
+                elif dtype.startswith('float'):
                     unit = max(4 * 10.0 ** -d, 0.01)
                     step = unit * rng.choice([1, 1, 2.5, 10, 100]) * rng.choice([1, 1, -1])
                     start = rng.uniform(0, 1000)
@@ -283,6 +309,7 @@ def run_shard(ctx, p):
             isint = not sp['dtype'].startswith('float')
             u = U.get(sp['dtype'], Fraction(1, 2 ** 53))
             tol0 = Fraction(1, 2) if isint else half
+            tol_of = (lambda ref: tol0) if (isint or not general) else (lambda ref: print_tol(fmt, ref))
             rows = arr.tolist()
             for f in range(nfr):
                 xs = [Fraction(x) for x in rows[f]]
@@ -309,13 +336,13 @@ def run_shard(ctx, p):
                     tv = Fraction(token)
                 except (ValueError, ZeroDivisionError):
                     tv = None
-                if tv is None or abs(tv - ref) > tol0 + err:
+                if tv is None or abs(tv - ref) > tol_of(ref) + err:
                     nviol += 1
                     if nviol <= 3:
                         viol('values_within_print_tolerance', 'value', 'channel %s frame %d: printed %r, %s of source is %s (tolerance %s)' % (
-                            sp['name'], f, token, red, float(ref), float(tol0 + err)),
+                            sp['name'], f, token, red, float(ref), float(tol_of(ref) + err)),
                             dict(base_w, channel=sp, frame=f, token=token, source=rows[f][:24], reference=float(ref), ref_fraction=str(ref) if len(str(ref)) < 80 else None,
-                                 tolerance=float(tol0 + err), row=tok['rows'][f]))
+                                 tolerance=float(tol_of(ref) + err), row=tok['rows'][f]))
                 if err:
                     rec.add('values_with_reduction_error_allowance')
                 if len(token) > fw:
